@@ -61,6 +61,11 @@ type HistStep struct {
 	V   *V     `json:"v,omitempty"`
 	// the very payload OBJECT of the previous event is sent again (the filter works on a copy: the same result is due)
 	Again bool `json:"again,omitempty"`
+	// a node's OWN OUTPUT fed back: 1 = the *Event the previous step forwarded is the event of this step, 2 = the very *Event the
+	// previous step was given, once more.  Other: through another Filter (same key, salt, info and table) instead of the history's.
+	// The model's input is the projection of the object actually handed over; Process must treat it as any caller's event.
+	Feed  int  `json:"feed,omitempty"`
+	Other bool `json:"other,omitempty"`
 }
 
 var histKeys = map[int]string{1: "k1", 3: "k3", 4: "k4"}
@@ -72,6 +77,10 @@ type hstate struct {
 	salt, info []byte
 	lastPV     interface{} // the payload object of the previous event of the history
 	again      bool
+	feed       int       // this step's event is lastOut (1) / lastIn (2)
+	keepOut    bool      // the next step feeds this step's forwarded event back: it is left as the filter made it
+	lastIn     *el.Event // the event the previous step was given
+	lastOut    *el.Event // the event the previous step forwarded
 }
 
 // a rotation payload of kind all / salt / info / wrapper / empty: only the named components are non-nil
@@ -431,7 +440,15 @@ func execCase(c Case) (res result) {
 			hs.keyName, hs.keyID = name, h.Rot
 		}
 		step := Case{ID: c.ID, Gen: c.Gen, Cfg: h.Cfg, PK: h.PK, V: h.V}
-		r := execOn(f, hs, step, i)
+		hs.feed = h.Feed
+		hs.keepOut = i+1 < len(c.Hist) && c.Hist[i+1].Feed == 1
+		fx := f
+		if h.Other {
+			// another Filter object in the state the history's filter is in
+			fx = &encrypt.Filter{HmacSalt: hs.salt, HmacInfo: hs.info, Wrapper: newAead(hs.keyName)}
+			setOverrides(fx, h.Cfg)
+		}
+		r := execOn(fx, hs, step, i)
 		if h.PK == "rotate" && !allNone(h.Cfg) && h.V != nil {
 			// what the model says a consumed rotation payload has done to the filter
 			rp, w := rotPayload(h.V.K, i)
@@ -461,6 +478,7 @@ func execOn(f *encrypt.Filter, hs *hstate, c Case, n int) (res result) {
 	defer func() { cancelCtx(); tagsHook = nil }()
 	cl := &classifier{canaries: map[string]int{}}
 	var pv interface{}
+	var fed *el.Event
 	ewi := "None"
 	switch c.PK {
 	case "nil":
@@ -476,6 +494,15 @@ func execOn(f *encrypt.Filter, hs *hstate, c Case, n int) (res result) {
 		pv = valueOf(c.V).Interface()
 		if hs.again && hs.lastPV != nil {
 			pv = hs.lastPV
+		}
+		switch {
+		case hs.feed == 1 && hs.lastOut != nil && hs.lastOut.Payload != nil:
+			fed = hs.lastOut
+		case hs.feed == 2 && hs.lastIn != nil && hs.lastIn.Payload != nil:
+			fed = hs.lastIn
+		}
+		if fed != nil {
+			pv = fed.Payload
 		}
 		hs.lastPV = pv
 	}
@@ -508,6 +535,14 @@ func execOn(f *encrypt.Filter, hs *hstate, c Case, n int) (res result) {
 		formatted = map[string][]byte{"json": []byte("formatted"), "text": []byte("formatted as text")}
 	}
 	e := &el.Event{Type: "t", CreatedAt: fixedTime, Payload: pv, Formatted: formatted}
+	if fed != nil {
+		e = fed
+	}
+	// the input as the model sees it, read BEFORE Process (an event fed back carries filtered values already)
+	inBefore := ""
+	if c.PK == "val" {
+		inBefore = safeLit(pr, reflect.ValueOf(pv))
+	}
 	snap := func() (s string) {
 		defer func() {
 			if r := recover(); r != nil {
@@ -537,7 +572,7 @@ func execOn(f *encrypt.Filter, hs *hstate, c Case, n int) (res result) {
 	case "rotate":
 		payloadLit = "PRotate"
 	case "val":
-		res.inLit = pr.lit(reflect.ValueOf(pv))
+		res.inLit = inBefore
 		payloadLit = fmt.Sprintf("(PVal %s %s)", ewi, res.inLit)
 	}
 	obs := ""
@@ -576,8 +611,14 @@ func execOn(f *encrypt.Filter, hs *hstate, c Case, n int) (res result) {
 	}
 	// aliasing: whatever a later node does to the forwarded event (a formatter writes Formatted, a filter rewrites the
 	// payload) must not show in the event the caller and the other pipelines hold
+	if c.PK == "val" {
+		hs.lastIn, hs.lastOut = e, nil
+		if res.panicV == nil && out != nil {
+			hs.lastOut = out
+		}
+	}
 	unaliased := true
-	if res.obs == "out" && out != e {
+	if res.obs == "out" && out != e && !hs.keepOut {
 		func() {
 			defer func() { recover() }()
 			out.FormattedAs("verif-new-format", []byte("written by a later node"))
@@ -783,9 +824,9 @@ func genHistories(e *emitter, r *hc.Rand, n int) {
 			if i > 0 && g.r.Chance(1, 5) {
 				// a rotation payload carrying only some of wrapper / salt / info: consumed, and the later events show what it installed
 				st = HistStep{Cfg: c, PK: "rotate", V: &V{K: []string{"all", "salt", "info", "wrapper", "empty", "typednil", "byvalue"}[g.r.Intn(7)]}}
-			} else if i > 0 && h[i-1].PK == "val" && g.r.Chance(1, 6) {
+			} else if len(h) > 0 && h[len(h)-1].PK == "val" && h[len(h)-1].Feed == 0 && g.r.Chance(1, 6) {
 				// the very payload object of the previous event once more
-				st = HistStep{Cfg: c, PK: "val", V: h[i-1].V, Again: true, Rot: st.Rot}
+				st = HistStep{Cfg: c, PK: "val", V: h[len(h)-1].V, Again: true, Rot: st.Rot}
 			} else if g.r.Chance(1, 10) {
 				// an event that fails (a string by value cannot be set; wrapper info without an event id): what comes later must not notice
 				if g.r.Bool() {
@@ -797,6 +838,15 @@ func genHistories(e *emitter, r *hc.Rand, n int) {
 			}
 			st.Cfg.Ign = g.r.Chance(1, 6)
 			h = append(h, st)
+			if st.PK == "val" && st.Feed == 0 && g.r.Chance(1, 5) {
+				// the node's own output fed back: into the same Filter (or another one), then the forwarded event of THAT once more or
+				// the very same event again
+				fb := HistStep{Cfg: c, PK: "val", V: st.V, Feed: 1, Other: g.r.Chance(1, 3)}
+				h = append(h, fb)
+				if g.r.Bool() {
+					h = append(h, HistStep{Cfg: c, PK: "val", V: st.V, Feed: 1 + g.r.Intn(2), Other: g.r.Chance(1, 4)})
+				}
+			}
 		}
 		e.emitHistory("history", h)
 	}
